@@ -56,8 +56,15 @@ def nearmiss_programs(ctx, rng, n):
     progs = []
     ann_re = re.compile(r"^(\s*)// @(immutable|constructor NewT|testonly|packageonly|mutable)\s*$", re.M)
     non_impl = {c for c, _ in gen_all.USES}
+    CASED = {"immutable": "// @Immutable is capitalised on purpose: this type is NOT @immutable", "testonly": "// @TestOnly would be wrong here, @testonly is not meant",
+             "constructor NewT": "// @Constructor NewT is not a @constructor NewT line", "packageonly": "// @PackageOnly is not @packageonly",
+             "mutable": "// @Mutable is not @mutable"}
     for i in range(n):
-        d = ann_re.sub(lambda m: m.group(1) + rng.choice(inert), gen_all.D_SRC)
+        if i % 5 == 0:
+            # lines that start with the keyword in another letter case and mention the real keyword later
+            d = ann_re.sub(lambda m: m.group(1) + CASED[m.group(2)], gen_all.D_SRC)
+        else:
+            d = ann_re.sub(lambda m: m.group(1) + rng.choice(inert), gen_all.D_SRC)
         if i % 2 == 0:
             # a commented-out declaration, annotations included, directly above the live one (a block comment is never an annotation)
             d = d.replace("type T struct {", "/*\n// @immutable\n// @constructor NewT\ntype Old struct{}\n*/\ntype T struct {", 1)
@@ -74,6 +81,9 @@ def nearmiss_programs(ctx, rng, n):
         if i % 2 == 1:
             # comments that document a *member* (an interface method), not a top-level declaration
             d = d.replace("\tM(n int) string", "\t// M is the only method.\n\t// @testonly\n\t// @packageonly\n\tM(n int) string", 1)
+        if i % 4 == 3:
+            # package documentation whose lines start with keywords
+            d = "// Package d is documented at length.\n// @packageonly restrictions are deliberately absent here.\n// @testonly helpers live elsewhere.\n// @immutable\n" + d
         pkgs = [{"path": "m/d", "name": "d", "files": [{"name": "d/d.go", "src": d}]}]
         for p in ("u", "w"):
             src, _where = gen_all.use_file(p, "%s/a.go" % p, codes=non_impl)
